@@ -9,8 +9,8 @@ import (
 	"time"
 
 	"github.com/trustbloc/sidetree-core-go/pkg/jws"
-	"github.com/trustbloc/sidetree-core-go/pkg/versions/1_0/client"
 	"github.com/trustbloc/sidetree-core-go/pkg/verifhooks"
+	"github.com/trustbloc/sidetree-core-go/pkg/versions/1_0/client"
 
 	"verifharness/hx"
 	"verifharness/ref"
